@@ -99,6 +99,18 @@ Example c14_template_certificates :
 Proof. exact lex_before_examples. Qed.
 Print Assumptions c14_template_certificates.
 
+(* all of this is about the WHOLE escaped value: a cut inside it (truncation of the evaluated template, repaired in
+   /repo) loses the closing quote and turns the rest of the value into query text *)
+Example c14_truncation_breaks_quoting :
+  let p := fun c => (32 <=? c) && (c <? 127) in
+  let v := [97; 34; 32; 79; 82; 32; 105; 100; 32; 61; 32; 49; 32; 120; 120; 120; 120] in
+  cql_lex (tpl1 ++ firstn 18 (quote_value p v))
+  = LexOk [(PROPERTY, [110; 97; 109; 101]); (COMPARATOR, [61]); (STRING, [34; 97; 92; 34]); (OR, [79; 82]);
+           (PROPERTY, [105; 100]); (COMPARATOR, [61]); (PROPERTY, [49]); (PROPERTY, [120; 120; 120])]
+  /\ cql_lex (tpl1 ++ quote_value p v) = LexOk [(PROPERTY, [110; 97; 109; 101]); (COMPARATOR, [61]); (STRING, quote_value p v)].
+Proof. exact truncation_breaks_quoting. Qed.
+Print Assumptions c14_truncation_breaks_quoting.
+
 (* the lexing half needs no hypothesis at all *)
 Theorem c14_lex_quoted_value : forall p v rest,
   cql_lex (quote_value p v ++ rest) =
